@@ -300,8 +300,12 @@ func (keys_and_cert *KeysAndCert) SigningPublicKey() (types.SigningPublicKey, er
 	return keys_and_cert.SigningPublic, nil
 }
 
-// Certificate returns the certificate.
+// Certificate returns the certificate, or nil when the KeysAndCert is not initialized
+// (all *certificate.Certificate methods accept a nil receiver).
 func (keys_and_cert *KeysAndCert) Certificate() *certificate.Certificate {
+	if keys_and_cert == nil || keys_and_cert.KeyCertificate == nil {
+		return nil
+	}
 	return &keys_and_cert.KeyCertificate.Certificate
 }
 
